@@ -280,6 +280,11 @@ func (m *Muxer) validate() error {
 			// cannot be represented and would be written as a huge one.
 			return fmt.Errorf("%w: frame %d has a negative offset (%d,%d)", ErrMuxValidation, i, f.opts.OffsetX, f.opts.OffsetY)
 		}
+		// A separate alpha chunk only goes with a lossy bitstream: VP8L
+		// carries its own alpha, and the container parser refuses ALPH+VP8L.
+		if alpha, bs := splitAlphaAndBitstream(f.data); alpha != nil && detectBitstreamType(bs) == FourCCVP8L {
+			return fmt.Errorf("%w: frame %d has an ALPH chunk in front of a lossless (VP8L) bitstream", ErrMuxValidation, i)
+		}
 		fw, fh := frameDimensions(f.data)
 		if fw == 0 || fh == 0 {
 			continue // could not parse dimensions, skip check
